@@ -162,7 +162,7 @@ RULE = ('Seeded specs of copyright documents: header (optional Upstream-Name, Up
         '...); given at construction (Header(data), other raw / single-line fields optionally in the data, Format at any '
         'position), by assignment (any position among the header assignments, twice, late, late after a first dump / '
         're-parse cycle, on a decoy Header), and as parsed input (Format line of the round-tripped dump replaced; also as '
-        'Format-Specification); ALL 143 fixed values x 5 ways as header-only documents in every run (fmt:enumerated), plus '
+        'Format-Specification); ALL 146 fixed values x 5 ways as header-only documents in every run (fmt:enumerated), plus '
         'seeded header documents, plus a non-default Format assigned in 8% of the ordinary and factory documents; every '
         'such document is dumped, parsed strict and non-strict, re-dumped, parsed and dumped a second time.  Source / '
         'Upstream-Name / Upstream-Contact / Disclaimer / Comment of the header documents carry URLs with and without '
@@ -298,51 +298,104 @@ LIST_BATCH = 16
 # lic:common-indent* / M.perm* / M.license-enc floors do the same for the round-3 classes.  The two complete
 # sub-spaces (codec:enumerated, lists:enumerated) are floored at their exact size.  No floor on the four
 # feat:punct-*-lone-comma/-semicolon document counters (a few dozen per quick run; the lists:*:lone-* counters carry it).
+# Round-8 extension (header formats / URL-ish header values): ALL floors regenerated the same way after DOCS quick went
+# from 10000 to 9600 (pays for the 1600 header documents + 715 enumerated ones).  New: fmt:* (documents, every way of
+# giving a Format, every class of value, way x class, URL shapes of the value, rewritten at construction / when parsed /
+# on re-parse of an assigned spelling), feat:url-<field>-* for Source / Upstream-Name / Upstream-Contact / Disclaimer /
+# Comment, and the monitors M.fmt, M.fmt-parsed(-value), M.second-round(-value): a run that never exercises the class
+# is INCONCLUSIVE.  fmt:enumerated is floored at its exact size (146 values x 5 ways).  No floor on a NEW counter whose
+# minimum measured was below 60 (a few way x class cells in the quick tier), none on fmt:unsplittable (0 on the
+# unchanged tree) and none on the recorded:* counters (what the library logs / warns is its business).
 FLOORS = {
-    'quick': {'nontrivial': 56000,
-        'monitors': {'K.codec': 180000, 'M.codec': 65000, 'M.codec-str': 49000, 'M.doc': 5800, 'M.license': 15000,
-                     'M.license-enc': 15000, 'M.list': 11000, 'M.list-doc': 13000, 'M.list-kept': 11000,
-                     'M.list-reassigned': 11000, 'M.list-reparsed': 11000, 'M.multi': 160, 'M.multi-doc': 440,
-                     'M.multi-value': 15000, 'M.nonstrict': 2000, 'M.nonstrict-value': 41000, 'M.para': 24000,
-                     'M.perm': 4000, 'M.perm-fixpoint': 4000, 'M.perm-para': 20000, 'M.perm-value': 87000,
-                     'M.value': 110000, 'M.watch': 320000},
-        'counters': {'codec:enumerated': 16105, 'fact:decoy-files': 300, 'fact:decoy-header': 390,
-                     'fact:decoy-license': 300, 'fact:early-reads': 2900, 'fact:files-paragraphs>=2': 3300,
-                     'fact:late-after-first-dump': 210, 'fact:late-assignment': 630, 'fact:late:comment': 390,
-                     'fact:late:files': 76, 'fact:late:header': 200, 'fact:late:license': 390,
+    'quick': {'nontrivial': 57000,
+        'monitors': {'K.codec': 180000, 'M.codec': 65000, 'M.codec-str': 49000, 'M.doc': 6700, 'M.fmt': 1500,
+                     'M.fmt-parsed': 1200, 'M.fmt-parsed-value': 35000, 'M.license': 15000, 'M.license-enc': 15000,
+                     'M.list': 11000, 'M.list-doc': 13000, 'M.list-kept': 11000, 'M.list-reassigned': 11000,
+                     'M.list-reparsed': 11000, 'M.multi': 160, 'M.multi-doc': 440, 'M.multi-value': 16000,
+                     'M.nonstrict': 3100, 'M.nonstrict-value': 57000, 'M.para': 26000, 'M.perm': 4000,
+                     'M.perm-fixpoint': 4000, 'M.perm-para': 20000, 'M.perm-value': 91000, 'M.second-round': 1500,
+                     'M.second-round-value': 23000, 'M.value': 120000, 'M.watch': 360000},
+        'counters': {'codec:enumerated': 16105, 'fact:decoy-files': 300, 'fact:decoy-header': 630,
+                     'fact:decoy-license': 300, 'fact:early-reads': 3400, 'fact:files-paragraphs>=2': 3300,
+                     'fact:late-after-first-dump': 380, 'fact:late-assignment': 950, 'fact:late:comment': 390,
+                     'fact:late:files': 76, 'fact:late:header': 580, 'fact:late:license': 390,
                      'fact:license-created-before-a-files-paragraph': 1700,
-                     'fact:license-paragraphs-fully-equal': 410, 'fact:license-paragraphs-with-equal-synopsis': 810,
+                     'fact:license-paragraphs-fully-equal': 410, 'fact:license-paragraphs-with-equal-synopsis': 800,
                      'fact:license-paragraphs-with-equal-text': 640,
                      'fact:license-paragraphs-with-synopsis-equal-ignoring-case': 71,
                      'fact:license-paragraphs:2': 1100, 'fact:license-paragraphs:3': 1000,
                      'fact:license-paragraphs:4': 110, 'fact:license-paragraphs:5': 100,
-                     'fact:license-paragraphs>=2': 2400, 'fact:own-header-object': 390,
-                     'fact:reused-license-object': 980, 'feat:common-indent': 1900, 'feat:contact-multi': 1600,
-                     'feat:contact-single': 1000, 'feat:empty-line': 5000, 'feat:files-added-after-license': 2600,
-                     'feat:files-list>120': 1800, 'feat:files-list>80': 3000, 'feat:files-multi': 4400,
-                     'feat:files-paragraph': 4900, 'feat:files-single': 2000, 'feat:header-license': 1300,
-                     'feat:indent': 5200, 'feat:license-paragraph': 4000, 'feat:non-ascii': 5500,
-                     'feat:pattern-hyphen': 4300, 'feat:pattern>80': 1500, 'feat:punct-files-at-first-entry': 1700,
-                     'feat:punct-files-at-last-entry': 1500, 'feat:punct-files-at-middle-entry': 2300,
+                     'fact:license-paragraphs>=2': 2300, 'fact:own-header-object': 720,
+                     'fact:reused-license-object': 980, 'feat:common-indent': 2000, 'feat:contact-multi': 1700,
+                     'feat:contact-single': 1100, 'feat:empty-line': 5400, 'feat:files-added-after-license': 2600,
+                     'feat:files-list>120': 1800, 'feat:files-list>80': 3100, 'feat:files-multi': 4600,
+                     'feat:files-paragraph': 5200, 'feat:files-single': 2000, 'feat:header-license': 1400,
+                     'feat:indent': 5600, 'feat:license-paragraph': 4200, 'feat:non-ascii': 6000,
+                     'feat:pattern-hyphen': 4500, 'feat:pattern>80': 1600, 'feat:punct-files-at-first-entry': 1700,
+                     'feat:punct-files-at-last-entry': 1600, 'feat:punct-files-at-middle-entry': 2400,
                      'feat:punct-files-at-only-entry': 450, 'feat:punct-files-fullwidth-separator': 200,
-                     'feat:punct-files-internal-comma': 960, 'feat:punct-files-internal-semicolon': 75,
-                     'feat:punct-files-leading-comma': 110, 'feat:punct-files-leading-other': 2400,
+                     'feat:punct-files-internal-comma': 980, 'feat:punct-files-internal-semicolon': 75,
+                     'feat:punct-files-leading-comma': 110, 'feat:punct-files-leading-other': 2500,
                      'feat:punct-files-leading-semicolon': 57, 'feat:punct-files-only-punctuation': 2000,
-                     'feat:punct-files-quote': 210, 'feat:punct-files-trailing-backslash': 840,
+                     'feat:punct-files-quote': 210, 'feat:punct-files-trailing-backslash': 860,
                      'feat:punct-files-trailing-colon': 97, 'feat:punct-files-trailing-comma': 230,
-                     'feat:punct-files-trailing-dot': 880, 'feat:punct-files-trailing-other': 1100,
-                     'feat:punct-files-trailing-semicolon': 130, 'feat:punct-lines-at-first-entry': 1800,
+                     'feat:punct-files-trailing-dot': 900, 'feat:punct-files-trailing-other': 1100,
+                     'feat:punct-files-trailing-semicolon': 130, 'feat:punct-lines-at-first-entry': 1900,
                      'feat:punct-lines-at-last-entry': 1900, 'feat:punct-lines-at-middle-entry': 1300,
-                     'feat:punct-lines-at-only-entry': 1200, 'feat:punct-lines-fullwidth-separator': 130,
-                     'feat:punct-lines-internal-comma': 1300, 'feat:punct-lines-internal-semicolon': 230,
-                     'feat:punct-lines-leading-comma': 160, 'feat:punct-lines-leading-other': 1400,
-                     'feat:punct-lines-leading-semicolon': 50, 'feat:punct-lines-only-punctuation': 560,
-                     'feat:punct-lines-quote': 370, 'feat:punct-lines-trailing-backslash': 220,
-                     'feat:punct-lines-trailing-colon': 160, 'feat:punct-lines-trailing-comma': 350,
-                     'feat:punct-lines-trailing-dot': 360, 'feat:punct-lines-trailing-other': 2400,
-                     'feat:punct-lines-trailing-semicolon': 120, 'feat:reassigned': 4400,
-                     'feat:set-then-clear': 1200, 'feat:tab': 4300, 'feat:trailing-blank': 5200, 'input:bytes': 1400,
-                     'input:keepends': 1400, 'input:noends': 1400, 'input:stringio': 1400, 'lic:common-indent': 2000,
+                     'feat:punct-lines-at-only-entry': 1300, 'feat:punct-lines-fullwidth-separator': 130,
+                     'feat:punct-lines-internal-comma': 1400, 'feat:punct-lines-internal-semicolon': 250,
+                     'feat:punct-lines-leading-comma': 150, 'feat:punct-lines-leading-other': 1400,
+                     'feat:punct-lines-leading-semicolon': 50, 'feat:punct-lines-only-punctuation': 550,
+                     'feat:punct-lines-quote': 370, 'feat:punct-lines-trailing-backslash': 230,
+                     'feat:punct-lines-trailing-colon': 160, 'feat:punct-lines-trailing-comma': 340,
+                     'feat:punct-lines-trailing-dot': 360, 'feat:punct-lines-trailing-other': 2500,
+                     'feat:punct-lines-trailing-semicolon': 120, 'feat:reassigned': 4400, 'feat:set-then-clear': 1100,
+                     'feat:tab': 4600, 'feat:trailing-blank': 5600, 'feat:url-comment-fragment': 230,
+                     'feat:url-comment-http': 290, 'feat:url-comment-https': 160,
+                     'feat:url-comment-inner-lead>=2': 200, 'feat:url-comment-inner-trailing-blank': 170,
+                     'feat:url-comment-multi-line': 280, 'feat:url-comment-no-trailing-slash': 270,
+                     'feat:url-comment-other-scheme': 140, 'feat:url-comment-query': 370,
+                     'feat:url-comment-trailing-slash': 240, 'feat:url-disclaimer-fragment': 230,
+                     'feat:url-disclaimer-http': 280, 'feat:url-disclaimer-https': 170,
+                     'feat:url-disclaimer-inner-lead>=2': 180, 'feat:url-disclaimer-inner-trailing-blank': 180,
+                     'feat:url-disclaimer-multi-line': 270, 'feat:url-disclaimer-no-trailing-slash': 270,
+                     'feat:url-disclaimer-other-scheme': 140, 'feat:url-disclaimer-query': 360,
+                     'feat:url-disclaimer-trailing-slash': 240, 'feat:url-source-fragment': 410,
+                     'feat:url-source-http': 350, 'feat:url-source-https': 950, 'feat:url-source-inner-lead>=2': 260,
+                     'feat:url-source-inner-trailing-blank': 260, 'feat:url-source-multi-line': 340,
+                     'feat:url-source-no-trailing-slash': 980, 'feat:url-source-other-scheme': 240,
+                     'feat:url-source-query': 480, 'feat:url-source-trailing-slash': 430,
+                     'feat:url-upstream-contact-fragment': 190, 'feat:url-upstream-contact-http': 360,
+                     'feat:url-upstream-contact-https': 140, 'feat:url-upstream-contact-multi-line': 320,
+                     'feat:url-upstream-contact-no-trailing-slash': 340,
+                     'feat:url-upstream-contact-other-scheme': 110, 'feat:url-upstream-contact-query': 440,
+                     'feat:url-upstream-contact-trailing-slash': 220, 'feat:url-upstream-name-fragment': 100,
+                     'feat:url-upstream-name-http': 180, 'feat:url-upstream-name-https': 83,
+                     'feat:url-upstream-name-no-trailing-slash': 170, 'feat:url-upstream-name-other-scheme': 53,
+                     'feat:url-upstream-name-query': 250, 'feat:url-upstream-name-trailing-slash': 140,
+                     'fmt:assign-late-after-first-dump:near-known': 46, 'fmt:assign-late:near-known': 37,
+                     'fmt:assign:canonical': 69, 'fmt:assign:dep5-historical': 160, 'fmt:assign:fixable-known': 150,
+                     'fmt:assign:near-known': 250, 'fmt:assign:non-url': 100, 'fmt:assign:unknown-url': 170,
+                     'fmt:assigned-spelling-rewritten-on-reparse': 170, 'fmt:class:canonical': 200,
+                     'fmt:class:dep5-historical': 480, 'fmt:class:fixable-known': 420, 'fmt:class:near-known': 700,
+                     'fmt:class:non-url': 360, 'fmt:class:unknown-url': 480, 'fmt:data:dep5-historical': 53,
+                     'fmt:data:fixable-known': 47, 'fmt:data:near-known': 93, 'fmt:data:non-url': 45,
+                     'fmt:data:unknown-url': 51, 'fmt:decoy-header:dep5-historical': 37,
+                     'fmt:decoy-header:fixable-known': 34, 'fmt:decoy-header:near-known': 58,
+                     'fmt:decoy-header:unknown-url': 36, 'fmt:documents': 1500, 'fmt:enumerated': 730,
+                     'fmt:how:assign': 870, 'fmt:how:assign-late': 140, 'fmt:how:assign-late-after-first-dump': 170,
+                     'fmt:how:data': 330, 'fmt:how:decoy-header': 220, 'fmt:how:parsed': 740,
+                     'fmt:how:parsed-format-specification': 300,
+                     'fmt:parsed-format-specification:dep5-historical': 52,
+                     'fmt:parsed-format-specification:fixable-known': 46,
+                     'fmt:parsed-format-specification:near-known': 86, 'fmt:parsed-format-specification:non-url': 46,
+                     'fmt:parsed-format-specification:unknown-url': 51, 'fmt:parsed:canonical': 64,
+                     'fmt:parsed:dep5-historical': 140, 'fmt:parsed:fixable-known': 130, 'fmt:parsed:near-known': 220,
+                     'fmt:parsed:non-url': 91, 'fmt:parsed:unknown-url': 160, 'fmt:rewritten-at-construction': 47,
+                     'fmt:rewritten-when-parsed': 190, 'fmt:url:fragment': 300, 'fmt:url:http': 850,
+                     'fmt:url:https': 910, 'fmt:url:no-trailing-slash': 840, 'fmt:url:other-scheme': 160,
+                     'fmt:url:query': 470, 'fmt:url:trailing-slash': 1000, 'input:bytes': 1600,
+                     'input:keepends': 1600, 'input:noends': 1600, 'input:stringio': 1600, 'lic:common-indent': 2000,
                      'lic:common-indent-mixed': 590, 'lic:common-indent-space': 1000, 'lic:common-indent-tab': 360,
                      'lic:common-indent-with-empty-line': 660, 'lists:enumerated': 2925, 'lists:files': 6100,
                      'lists:files:at-first-entry': 3500, 'lists:files:at-last-entry': 3500,
@@ -367,22 +420,23 @@ FLOORS = {
                      'lists:lines:trailing-other': 2300, 'lists:lines:trailing-semicolon': 570,
                      'lists:upstream_contact': 1700, 'multi:doc-with-license-paragraphs>=2': 320, 'multi:docs:2': 58,
                      'multi:docs:3': 64, 'multi:docs:4': 30, 'multi:equal-license-in-two-documents': 140,
-                     'multi:reused-license-object': 400, 'perm-input:bytes': 980, 'perm-input:keepends': 980,
-                     'perm-input:noends': 990, 'perm-input:stringio': 980, 'perm:all-licenses-before-all-files': 780,
+                     'multi:reused-license-object': 400, 'perm-input:bytes': 990, 'perm-input:keepends': 990,
+                     'perm-input:noends': 990, 'perm-input:stringio': 990, 'perm:all-licenses-before-all-files': 870,
                      'perm:files-after-license': 2600, 'perm:files-reordered-among-themselves': 2300,
-                     'perm:license-before-first-files': 1600, 'perm:license-between-files': 1300,
+                     'perm:license-before-first-files': 1700, 'perm:license-between-files': 1300,
                      'perm:licenses-reordered-among-themselves': 1600}},
-    'thorough': {'nontrivial': 2400000,
-        'monitors': {'K.codec': 9800000, 'M.codec': 3500000, 'M.codec-str': 2600000, 'M.doc': 310000,
-                     'M.license': 700000, 'M.license-enc': 700000, 'M.list': 500000, 'M.list-doc': 530000,
-                     'M.list-kept': 500000, 'M.list-reassigned': 500000, 'M.list-reparsed': 500000, 'M.multi': 7900,
-                     'M.multi-doc': 22000, 'M.multi-value': 760000, 'M.nonstrict': 100000,
-                     'M.nonstrict-value': 2200000, 'M.para': 1300000, 'M.perm': 220000, 'M.perm-fixpoint': 220000,
-                     'M.perm-para': 1100000, 'M.perm-value': 4800000, 'M.value': 6100000, 'M.watch': 16000000},
-        'counters': {'codec:enumerated': 16105, 'fact:decoy-files': 15000, 'fact:decoy-header': 20000,
-                     'fact:decoy-license': 15000, 'fact:early-reads': 160000, 'fact:files-paragraphs>=2': 180000,
-                     'fact:late-after-first-dump': 11000, 'fact:late-assignment': 31000, 'fact:late:comment': 20000,
-                     'fact:late:files': 4000, 'fact:late:header': 11000, 'fact:late:license': 20000,
+    'thorough': {'nontrivial': 2500000,
+        'monitors': {'K.codec': 9800000, 'M.codec': 3500000, 'M.codec-str': 2600000, 'M.doc': 360000, 'M.fmt': 67000,
+                     'M.fmt-parsed': 59000, 'M.fmt-parsed-value': 1800000, 'M.license': 700000,
+                     'M.license-enc': 700000, 'M.list': 500000, 'M.list-doc': 530000, 'M.list-kept': 500000,
+                     'M.list-reassigned': 500000, 'M.list-reparsed': 500000, 'M.multi': 7900, 'M.multi-doc': 22000,
+                     'M.multi-value': 800000, 'M.nonstrict': 150000, 'M.nonstrict-value': 2900000, 'M.para': 1400000,
+                     'M.perm': 230000, 'M.perm-fixpoint': 230000, 'M.perm-para': 1100000, 'M.perm-value': 5100000,
+                     'M.second-round': 67000, 'M.second-round-value': 1000000, 'M.value': 7000000, 'M.watch': 19000000},
+        'counters': {'codec:enumerated': 16105, 'fact:decoy-files': 15000, 'fact:decoy-header': 32000,
+                     'fact:decoy-license': 15000, 'fact:early-reads': 180000, 'fact:files-paragraphs>=2': 190000,
+                     'fact:late-after-first-dump': 18000, 'fact:late-assignment': 46000, 'fact:late:comment': 20000,
+                     'fact:late:files': 4000, 'fact:late:header': 27000, 'fact:late:license': 20000,
                      'fact:license-created-before-a-files-paragraph': 96000,
                      'fact:license-paragraphs-fully-equal': 21000,
                      'fact:license-paragraphs-with-equal-synopsis': 42000,
@@ -390,35 +444,92 @@ FLOORS = {
                      'fact:license-paragraphs-with-synopsis-equal-ignoring-case': 3800,
                      'fact:license-paragraphs:2': 63000, 'fact:license-paragraphs:3': 57000,
                      'fact:license-paragraphs:4': 5600, 'fact:license-paragraphs:5': 5700,
-                     'fact:license-paragraphs>=2': 130000, 'fact:own-header-object': 19000,
-                     'fact:reused-license-object': 50000, 'feat:common-indent': 110000, 'feat:contact-multi': 91000,
-                     'feat:contact-single': 59000, 'feat:empty-line': 280000,
-                     'feat:files-added-after-license': 140000, 'feat:files-list>120': 100000,
-                     'feat:files-list>80': 170000, 'feat:files-multi': 240000, 'feat:files-paragraph': 270000,
-                     'feat:files-single': 110000, 'feat:header-license': 76000, 'feat:indent': 290000,
-                     'feat:license-paragraph': 220000, 'feat:non-ascii': 300000, 'feat:pattern-hyphen': 240000,
-                     'feat:pattern>80': 89000, 'feat:punct-files-at-first-entry': 96000,
-                     'feat:punct-files-at-last-entry': 86000, 'feat:punct-files-at-middle-entry': 130000,
-                     'feat:punct-files-at-only-entry': 24000, 'feat:punct-files-fullwidth-separator': 10000,
-                     'feat:punct-files-internal-comma': 54000, 'feat:punct-files-internal-semicolon': 4100,
-                     'feat:punct-files-leading-comma': 6000, 'feat:punct-files-leading-other': 130000,
+                     'fact:license-paragraphs>=2': 130000, 'fact:own-header-object': 31000,
+                     'fact:reused-license-object': 50000, 'feat:common-indent': 110000, 'feat:contact-multi': 100000,
+                     'feat:contact-single': 68000, 'feat:empty-line': 300000,
+                     'feat:files-added-after-license': 150000, 'feat:files-list>120': 100000,
+                     'feat:files-list>80': 180000, 'feat:files-multi': 260000, 'feat:files-paragraph': 290000,
+                     'feat:files-single': 120000, 'feat:header-license': 81000, 'feat:indent': 320000,
+                     'feat:license-paragraph': 240000, 'feat:non-ascii': 340000, 'feat:pattern-hyphen': 260000,
+                     'feat:pattern>80': 95000, 'feat:punct-files-at-first-entry': 100000,
+                     'feat:punct-files-at-last-entry': 90000, 'feat:punct-files-at-middle-entry': 130000,
+                     'feat:punct-files-at-only-entry': 25000, 'feat:punct-files-fullwidth-separator': 10000,
+                     'feat:punct-files-internal-comma': 57000, 'feat:punct-files-internal-semicolon': 4100,
+                     'feat:punct-files-leading-comma': 6000, 'feat:punct-files-leading-other': 140000,
                      'feat:punct-files-leading-semicolon': 3100, 'feat:punct-files-only-punctuation': 110000,
-                     'feat:punct-files-quote': 10000, 'feat:punct-files-trailing-backslash': 48000,
+                     'feat:punct-files-quote': 10000, 'feat:punct-files-trailing-backslash': 50000,
                      'feat:punct-files-trailing-colon': 5200, 'feat:punct-files-trailing-comma': 12000,
-                     'feat:punct-files-trailing-dot': 49000, 'feat:punct-files-trailing-other': 62000,
-                     'feat:punct-files-trailing-semicolon': 7000, 'feat:punct-lines-at-first-entry': 100000,
-                     'feat:punct-lines-at-last-entry': 100000, 'feat:punct-lines-at-middle-entry': 77000,
-                     'feat:punct-lines-at-only-entry': 70000, 'feat:punct-lines-fullwidth-separator': 7000,
-                     'feat:punct-lines-internal-comma': 73000, 'feat:punct-lines-internal-semicolon': 11000,
-                     'feat:punct-lines-leading-comma': 9200, 'feat:punct-lines-leading-other': 80000,
-                     'feat:punct-lines-leading-semicolon': 2700, 'feat:punct-lines-only-punctuation': 31000,
+                     'feat:punct-files-trailing-dot': 52000, 'feat:punct-files-trailing-other': 65000,
+                     'feat:punct-files-trailing-semicolon': 7000, 'feat:punct-lines-at-first-entry': 110000,
+                     'feat:punct-lines-at-last-entry': 110000, 'feat:punct-lines-at-middle-entry': 80000,
+                     'feat:punct-lines-at-only-entry': 75000, 'feat:punct-lines-fullwidth-separator': 7000,
+                     'feat:punct-lines-internal-comma': 79000, 'feat:punct-lines-internal-semicolon': 13000,
+                     'feat:punct-lines-leading-comma': 9300, 'feat:punct-lines-leading-other': 82000,
+                     'feat:punct-lines-leading-semicolon': 2700, 'feat:punct-lines-only-punctuation': 32000,
                      'feat:punct-lines-quote': 22000, 'feat:punct-lines-trailing-backslash': 12000,
-                     'feat:punct-lines-trailing-colon': 9700, 'feat:punct-lines-trailing-comma': 19000,
-                     'feat:punct-lines-trailing-dot': 20000, 'feat:punct-lines-trailing-other': 130000,
-                     'feat:punct-lines-trailing-semicolon': 6900, 'feat:reassigned': 240000,
-                     'feat:set-then-clear': 70000, 'feat:tab': 240000, 'feat:trailing-blank': 280000,
-                     'input:bytes': 79000, 'input:keepends': 79000, 'input:noends': 79000, 'input:stringio': 80000,
-                     'lic:common-indent': 94000, 'lic:common-indent-mixed': 28000, 'lic:common-indent-space': 48000,
+                     'feat:punct-lines-trailing-colon': 9800, 'feat:punct-lines-trailing-comma': 19000,
+                     'feat:punct-lines-trailing-dot': 21000, 'feat:punct-lines-trailing-other': 140000,
+                     'feat:punct-lines-trailing-semicolon': 6900, 'feat:reassigned': 250000,
+                     'feat:set-then-clear': 70000, 'feat:tab': 260000, 'feat:trailing-blank': 320000,
+                     'feat:url-comment-fragment': 12000, 'feat:url-comment-http': 16000,
+                     'feat:url-comment-https': 9300, 'feat:url-comment-inner-lead>=2': 11000,
+                     'feat:url-comment-inner-trailing-blank': 10000, 'feat:url-comment-multi-line': 16000,
+                     'feat:url-comment-no-trailing-slash': 16000, 'feat:url-comment-other-scheme': 7700,
+                     'feat:url-comment-query': 21000, 'feat:url-comment-trailing-slash': 13000,
+                     'feat:url-disclaimer-fragment': 12000, 'feat:url-disclaimer-http': 15000,
+                     'feat:url-disclaimer-https': 9400, 'feat:url-disclaimer-inner-lead>=2': 10000,
+                     'feat:url-disclaimer-inner-trailing-blank': 9700, 'feat:url-disclaimer-multi-line': 15000,
+                     'feat:url-disclaimer-no-trailing-slash': 15000, 'feat:url-disclaimer-other-scheme': 7700,
+                     'feat:url-disclaimer-query': 20000, 'feat:url-disclaimer-trailing-slash': 13000,
+                     'feat:url-source-fragment': 21000, 'feat:url-source-http': 19000, 'feat:url-source-https': 53000,
+                     'feat:url-source-inner-lead>=2': 14000, 'feat:url-source-inner-trailing-blank': 13000,
+                     'feat:url-source-multi-line': 19000, 'feat:url-source-no-trailing-slash': 55000,
+                     'feat:url-source-other-scheme': 13000, 'feat:url-source-query': 26000,
+                     'feat:url-source-trailing-slash': 22000, 'feat:url-upstream-contact-fragment': 11000,
+                     'feat:url-upstream-contact-http': 21000, 'feat:url-upstream-contact-https': 7900,
+                     'feat:url-upstream-contact-multi-line': 19000,
+                     'feat:url-upstream-contact-no-trailing-slash': 20000,
+                     'feat:url-upstream-contact-other-scheme': 6400, 'feat:url-upstream-contact-query': 25000,
+                     'feat:url-upstream-contact-trailing-slash': 12000, 'feat:url-upstream-name-fragment': 6600,
+                     'feat:url-upstream-name-http': 11000, 'feat:url-upstream-name-https': 4700,
+                     'feat:url-upstream-name-no-trailing-slash': 10000, 'feat:url-upstream-name-other-scheme': 3000,
+                     'feat:url-upstream-name-query': 15000, 'feat:url-upstream-name-trailing-slash': 8100,
+                     'fmt:assign-late-after-first-dump:canonical': 560,
+                     'fmt:assign-late-after-first-dump:dep5-historical': 1300,
+                     'fmt:assign-late-after-first-dump:fixable-known': 1200,
+                     'fmt:assign-late-after-first-dump:near-known': 1800,
+                     'fmt:assign-late-after-first-dump:non-url': 700,
+                     'fmt:assign-late-after-first-dump:unknown-url': 1300, 'fmt:assign-late:canonical': 550,
+                     'fmt:assign-late:dep5-historical': 1300, 'fmt:assign-late:fixable-known': 1200,
+                     'fmt:assign-late:near-known': 1800, 'fmt:assign-late:non-url': 670,
+                     'fmt:assign-late:unknown-url': 1300, 'fmt:assign:canonical': 3800,
+                     'fmt:assign:dep5-historical': 8900, 'fmt:assign:fixable-known': 8500,
+                     'fmt:assign:near-known': 12000, 'fmt:assign:non-url': 4600, 'fmt:assign:unknown-url': 8800,
+                     'fmt:assigned-spelling-rewritten-on-reparse': 9700, 'fmt:class:canonical': 11000,
+                     'fmt:class:dep5-historical': 24000, 'fmt:class:fixable-known': 23000,
+                     'fmt:class:near-known': 31000, 'fmt:class:non-url': 13000, 'fmt:class:unknown-url': 24000,
+                     'fmt:data:canonical': 1100, 'fmt:data:dep5-historical': 2600, 'fmt:data:fixable-known': 2500,
+                     'fmt:data:near-known': 3600, 'fmt:data:non-url': 1300, 'fmt:data:unknown-url': 2700,
+                     'fmt:decoy-header:canonical': 980, 'fmt:decoy-header:dep5-historical': 2400,
+                     'fmt:decoy-header:fixable-known': 2200, 'fmt:decoy-header:near-known': 3300,
+                     'fmt:decoy-header:non-url': 1100, 'fmt:decoy-header:unknown-url': 2300, 'fmt:documents': 67000,
+                     'fmt:enumerated': 730, 'fmt:how:assign': 43000, 'fmt:how:assign-late': 6900,
+                     'fmt:how:assign-late-after-first-dump': 7000, 'fmt:how:data': 14000,
+                     'fmt:how:decoy-header': 12000, 'fmt:how:parsed': 37000,
+                     'fmt:how:parsed-format-specification': 13000, 'fmt:parsed-format-specification:canonical': 1000,
+                     'fmt:parsed-format-specification:dep5-historical': 2500,
+                     'fmt:parsed-format-specification:fixable-known': 2400,
+                     'fmt:parsed-format-specification:near-known': 3500,
+                     'fmt:parsed-format-specification:non-url': 1300,
+                     'fmt:parsed-format-specification:unknown-url': 2500, 'fmt:parsed:canonical': 3600,
+                     'fmt:parsed:dep5-historical': 8300, 'fmt:parsed:fixable-known': 7900,
+                     'fmt:parsed:near-known': 11000, 'fmt:parsed:non-url': 4400, 'fmt:parsed:unknown-url': 8500,
+                     'fmt:rewritten-at-construction': 2500, 'fmt:rewritten-when-parsed': 10000,
+                     'fmt:url:fragment': 15000, 'fmt:url:http': 42000, 'fmt:url:https': 43000,
+                     'fmt:url:no-trailing-slash': 41000, 'fmt:url:other-scheme': 8600, 'fmt:url:query': 24000,
+                     'fmt:url:trailing-slash': 48000, 'input:bytes': 90000, 'input:keepends': 90000,
+                     'input:noends': 90000, 'input:stringio': 90000, 'lic:common-indent': 94000,
+                     'lic:common-indent-mixed': 28000, 'lic:common-indent-space': 48000,
                      'lic:common-indent-tab': 17000, 'lic:common-indent-with-empty-line': 32000,
                      'lists:enumerated': 2925, 'lists:files': 250000, 'lists:files:at-first-entry': 120000,
                      'lists:files:at-last-entry': 120000, 'lists:files:at-middle-entry': 100000,
@@ -444,10 +555,10 @@ FLOORS = {
                      'lists:lines:trailing-semicolon': 26000, 'lists:upstream_contact': 83000,
                      'multi:doc-with-license-paragraphs>=2': 16000, 'multi:docs:2': 3200, 'multi:docs:3': 3200,
                      'multi:docs:4': 1500, 'multi:equal-license-in-two-documents': 7200,
-                     'multi:reused-license-object': 22000, 'perm-input:bytes': 55000, 'perm-input:keepends': 55000,
-                     'perm-input:noends': 55000, 'perm-input:stringio': 55000,
-                     'perm:all-licenses-before-all-files': 45000, 'perm:files-after-license': 140000,
-                     'perm:files-reordered-among-themselves': 130000, 'perm:license-before-first-files': 91000,
+                     'multi:reused-license-object': 22000, 'perm-input:bytes': 57000, 'perm-input:keepends': 57000,
+                     'perm-input:noends': 57000, 'perm-input:stringio': 57000,
+                     'perm:all-licenses-before-all-files': 51000, 'perm:files-after-license': 150000,
+                     'perm:files-reordered-among-themselves': 130000, 'perm:license-before-first-files': 97000,
                      'perm:license-between-files': 78000, 'perm:licenses-reordered-among-themselves': 91000}},
 }
 
@@ -1281,12 +1392,12 @@ FMT_UNKNOWN_URLS = ['https://example.org/format/', 'https://example.org/format',
                     'https://example.org/a/b.html#c', 'http://example.org/f?x=1&y=2', 'HTTP://EXAMPLE.ORG/F',
                     'ftp://example.org/pub/format/', 'file:///usr/share/doc/debian-policy/copyright-format-1.0.txt.gz',
                     'mailto:format@example.org', 'urn:dep:5', 'git://example.org/format.git', 'http://[::1]:8080/f/',
-                    'https://été.example/format/', 'http://example.org/日本語']
+                    'https://été.example/format/', 'http://example.org/日本語', 'https://example.org/%s/%d']
 FMT_NONURL = ['x', '1.0', '1', '0', 'copyright-format 1.0', 'copyright-format/1.0', 'DEP-5', 'dep5', 'none', 'None',
               'unknown', 'é-format', '日本語', 'http', 'https', 'http:', 'https:', 'http:/', 'https:/',
               'http://', 'https://', 'http:x', 'https:/x', '/', '//', '///', 'a:b', 'a/', '#1', '#', '?', '-', '--', '.',
               '..', './', 'Format: y', 'Format:', 'Files: *', 'License: GPL-2+', 'x:', ':x', ':', 'machine-readable',
-              'a  b', 'a\tb', '<none>', '1.0/', 'v1.0 http://example.org/f', 'see https://example.org/f/ .', '\U0001f600']
+              'a  b', 'a\tb', '<none>', '1.0/', 'v1.0 http://example.org/f', 'see https://example.org/f/ .', '\U0001f600', '100%', '%(fmt)s']
 FMT_FIXED = [CUR_FORMAT] + FMT_FIXABLE + FMT_NEAR + FMT_DEP5 + FMT_UNKNOWN_URLS + FMT_NONURL
 
 URL_SCHEMES = ['http://', 'https://', 'http://', 'https://', 'http://', 'https://', 'HTTP://', 'Https://', 'ftp://',
